@@ -38,7 +38,9 @@ Patterns == << <<0, 1, 2, 3, 4>>,            \* linear, interval 1
                <<0, 1, 3, 4, 5>>,            \* uneven from T = 3, first difference repeated later
                <<10, 20, 40, 80, 160>>,      \* log from T = 3
                <<0, 2, 4, 6, 9>>,            \* uneven only in the last difference (T = 5)
-               <<5, 6, 8, 10, 12>> >>        \* uneven only in the first difference
+               <<5, 6, 8, 10, 12>>,          \* uneven only in the first difference
+               <<0, 200000, 400000, 600001, 800001>>,   \* long intervals with a slip of one step (T >= 4): NOT evenly spaced
+               <<3, 500003, 1000004, 1500005, 2000006>> >> \* every interval after the first longer by one step
 Dts == << <<1, 500>>, <<1, 4>>, <<3, 1>> >>
 
 MkVal(T, N, rank, dim, c, fam) ==
